@@ -1413,10 +1413,31 @@ class CryptographyEngine(api.CryptographicEngine):
         """
 
         if digital_signature_algorithm:
-            (hash_alg, crypto_alg) = self._digital_signature_algorithms.get(
-                                         digital_signature_algorithm,
-                                         (None, None)
-            )
+            (hash_alg, dsa_crypto_alg) = \
+                self._digital_signature_algorithms.get(
+                    digital_signature_algorithm,
+                    (None, None)
+                )
+            if hash_alg and dsa_crypto_alg:
+                # As in verify_signature: the hashing and cryptographic
+                # algorithms, when given too, must match the digital
+                # signature algorithm.
+                given_hash_alg = None
+                if hash_algorithm:
+                    given_hash_alg = self._encryption_hash_algorithms.get(
+                        hash_algorithm
+                    )
+                if given_hash_alg and (given_hash_alg != hash_alg):
+                    raise exceptions.InvalidField(
+                        "The hashing algorithm does not match the digital "
+                        "signature algorithm."
+                    )
+                if crypto_alg and (crypto_alg != dsa_crypto_alg):
+                    raise exceptions.InvalidField(
+                        "The signing algorithm does not match the digital "
+                        "signature algorithm."
+                    )
+            crypto_alg = dsa_crypto_alg
 
         elif crypto_alg and hash_algorithm:
             hash_alg = self._encryption_hash_algorithms.get(
